@@ -39,7 +39,7 @@ def lkey(e):
         return json.dumps([e[0], sorted(lkey(x) for x in e[1])])
     if e[0] in ("t", "l", "it"):
         return json.dumps([e[0], [lkey(x) for x in e[1]]])
-    if e[0] == "d":
+    if e[0] in ("d", "idd"):
         return json.dumps(["d", [[lkey(k), lkey(v)] for k, v in e[1]]])
     return json.dumps(e)
 
@@ -53,7 +53,7 @@ def sublabels(e, out):
     if e[0] in ("t", "fs", "set", "l", "it"):
         for x in e[1]:
             sublabels(x, out)
-    elif e[0] == "d":
+    elif e[0] in ("d", "idd"):
         for k, v in e[1]:
             sublabels(k, out)
             sublabels(v, out)
@@ -112,21 +112,21 @@ class Concrete:
             t = e[0]
             il = t in ("i", "b", "fi")
             A += [c.intlike(i) == B(il), c.is_int(i) == B(t in ("i", "b")), c.is_str(i) == B(t == "s"), c.is_tuple(i) == B(t == "t"),
-                  c.is_list(i) == B(t == "l"), c.is_dict(i) == B(t == "d"),
+                  c.is_list(i) == B(t == "l"), c.is_dict(i) == B(t in ("d", "idd")),
                   c.hashable(i) == B(self._hashable(e)), c.floatable(i) == B(t in ("i", "b", "f", "fi")),
-                  c.iterable(i) == B(t in ("s", "t", "fs", "set", "l", "it", "d")), c.one_shot(i) == B(t == "it"),
+                  c.iterable(i) == B(t in ("s", "t", "fs", "set", "l", "it", "d", "idd")), c.one_shot(i) == B(t == "it"),
                   c.truthy(i) == B(self._truthy(e))]
             if il:
                 A.append(c.int_of(i) == int(e[1]))
                 A.append(c.id_of_int(z3.IntVal(int(e[1]))) == i)
             if t in ("t", "fs", "set", "l", "it"):
-                A.append(c.content(i) == self.setof([x for x in e[1] if self._hashable(x)]))
+                A.append(c.content(i) == self.setof(list(e[1])))
                 A.append(c.elems_hashable(i) == B(all(self._hashable(x) for x in e[1])))
                 A.append(c.len_of(i) == len(e[1]))
                 for j, x in enumerate(e[1]):
                     if t in ("t", "l"):
                         A.append(c.sub(i, z3.IntVal(j)) == self.id[lkey(x)])
-            elif t == "d":
+            elif t in ("d", "idd"):
                 A.append(c.content(i) == self.setof([kk for kk, _ in e[1]]))
                 A.append(c.akeys(i) == self.setof([kk for kk, _ in e[1]]))
                 A.append(c.elems_hashable(i) == B(True))
@@ -158,7 +158,7 @@ class Concrete:
     @staticmethod
     def _hashable(e):
         t = e[0]
-        if t in ("l", "d", "set", "it"):
+        if t in ("l", "d", "idd", "set", "it"):
             return t == "it"
         if t in ("t", "fs"):
             return all(Concrete._hashable(x) for x in e[1])
@@ -336,6 +336,12 @@ def evaluate(spec, case, outcome, props=None):
             for k, x in e[1]:
                 av = z3.Store(av, K.id[lkey(k)], K.id[lkey(x)])
             A.v[name] = VAttr(has, av)
+        elif kind == "pydict":
+            from .values import VDict
+            arr = K.junk("av", c.MapVal)
+            for kk, vv in e[1]:
+                arr = z3.Store(arr, K.id[lkey(kk)], K.id[lkey(vv)])
+            A.v[name] = VDict("dict", "val", K.setof([kk for kk, _ in e[1]]), {"v": arr})
         elif kind in ("fset", "set"):
             from .values import VSet
             A.v[name] = VSet(K.setof([x for x in e[1]]), frozen=(kind == "fset"))
